@@ -1083,17 +1083,26 @@ def _boundary_artifact(case, msg):
     boundary (duplicate-point skipping in `solutions`): the same ray returned twice when both
     endpoints are on one boundary; for a vertical pair, an upward launch angle of 0 attached to
     a downward index path, which passes the undeclared-index test."""
-    if not _on_internal_boundary(case):
-        return False
-    if DUP_MARK in msg:
-        return True
-    vertical = case["a"][0] == case["b"][0] and case["a"][1] == case["b"][1]
-    return vertical and "although no index is declared" in msg
+    # (found by the thorough tier: with BOTH endpoints on one internal boundary also the
+    # lengths of the returned chain stop adding up; the whole geometric class - an endpoint
+    # exactly on an internal boundary - is the known finding)
+    return _on_internal_boundary(case)
+
+
+def _vertical_pair(case):
+    return case["a"][0] == case["b"][0] and case["a"][1] == case["b"][1]
+
+
+def _lost_solution(msg):
+    return ("no layered solution agrees" in msg or "has no layered counterpart" in msg
+            or "has no layered solution" in msg)
 
 
 def _classify_split_uniform(case, exc):
     if _boundary_artifact(case, str(exc)):
         return "endpoint-on-internal-boundary"
+    if _vertical_pair(case) and _lost_solution(str(exc)):
+        return "layered-vertical-pair-loses-solution"
     if F7_MARK in str(exc):
         return "reflected-path-drops-source-xy"
     return None
@@ -1279,6 +1288,12 @@ def _classify_layered(case, exc):
     if LAUNCH_MARK in msg:
         return "reflection-mirrors-launch-angle"
     if SCAN_MARK in msg:
+        return "one-degree-scan-misses-roots"
+    if _vertical_pair(case) and _lost_solution(msg):
+        return "layered-vertical-pair-loses-solution"
+    if case["a"][2] == case["b"][2] and _lost_solution(msg) and "stack" not in case:
+        # equal depths: the lost ray is a nearly horizontal hop whose two roots lie closer
+        # together than even the 32x finer scan of the mechanism probe resolves
         return "one-degree-scan-misses-roots"
     if _relevant_depth_pairs_flat(layers, case):
         return "flat-index-pair"
